@@ -70,6 +70,7 @@ Init ==
   \/ Mode = "shortw"  /\ v \in { r \in SW : Len(r.sz) = 1 \/ Hash(r) = Shard }
   \/ Mode = "refuse"  /\ v \in RF
   \/ Mode = "id"      /\ v \in { r \in IDS : r.dl <= Len(r.inbox) } \cup IDL
+  \/ Mode = "repoint" /\ v \in { [first |-> a, second |-> b, inbox |-> ib] : a \in Kinds, b \in Kinds, ib \in { <<"other", "mine">>, <<"mine">> } }
 Next == UNCHANGED v
 
 StreamVector(r) ==
@@ -95,5 +96,12 @@ IdVector(r) ==
    extend |-> MaxDeadlineExtensions,       \* how often the read deadline may be moved later once the request is written
    kinds |-> SetToSeq({ [k |-> k, admitted |-> SetToSeq({ IdResult(t, r.inbox, r.dl, "mine") : t \in KindRules[k] })] : k \in ks })]
 
-Out == IF Mode = "id" THEN Emit(IdVector(v)) ELSE Emit(StreamVector(v))
+RepointVector(r) ==
+  [kind |-> "repoint", first |-> r.first, second |-> r.second, inbox |-> r.inbox, dl |-> Len(r.inbox),
+   rule |-> IF Cardinality(KindRules[r.second]) = 1 THEN CHOOSE t \in KindRules[r.second] : TRUE ELSE "either",
+   admitted |-> SetToSeq(RepointResults(r.first, r.second, r.inbox, Len(r.inbox), "mine"))]
+
+Out == CASE Mode = "id" -> Emit(IdVector(v))
+         [] Mode = "repoint" -> Emit(RepointVector(v))
+         [] OTHER -> Emit(StreamVector(v))
 =============================================================================
